@@ -29,9 +29,15 @@ struct ares_qcache {
   ares_htable_strvp_t *cache;
   ares_slist_t        *expire;
   unsigned int         max_ttl;
+  /* Number of completion callbacks currently looking at a record owned by the
+   * cache, and the records of entries removed meanwhile (their destruction
+   * waits until the last such callback has returned) */
+  size_t               in_callback;
+  ares_llist_t        *deferred;
 };
 
 typedef struct {
+  ares_qcache_t     *qcache;
   char              *key;
   ares_dns_record_t *dnsrec;
   time_t             expire_ts;
@@ -174,7 +180,38 @@ void ares_qcache_destroy(ares_qcache_t *cache)
 
   ares_htable_strvp_destroy(cache->cache);
   ares_slist_destroy(cache->expire);
+  ares_llist_destroy(cache->deferred);
   ares_free(cache);
+}
+
+static void ares_qcache_dnsrec_destroy_cb(void *arg)
+{
+  ares_dns_record_destroy(arg);
+}
+
+void ares_qcache_callback_begin(ares_qcache_t *cache)
+{
+  if (cache != NULL) {
+    cache->in_callback++;
+  }
+}
+
+void ares_qcache_callback_end(ares_qcache_t *cache)
+{
+  ares_llist_node_t *node;
+
+  if (cache == NULL || cache->in_callback == 0) {
+    return;
+  }
+
+  cache->in_callback--;
+  if (cache->in_callback > 0) {
+    return;
+  }
+
+  while ((node = ares_llist_node_first(cache->deferred)) != NULL) {
+    ares_llist_node_destroy(node);
+  }
 }
 
 static int ares_qcache_entry_sort_cb(const void *arg1, const void *arg2)
@@ -198,6 +235,15 @@ static void ares_qcache_entry_destroy_cb(void *arg)
   ares_qcache_entry_t *entry = arg;
   if (entry == NULL) {
     return; /* LCOV_EXCL_LINE: DefensiveCoding */
+  }
+
+  /* A completion callback may be reading this very record (it was handed the
+   * cache's copy) and got here by flushing or expiring the cache from inside
+   * the callback: keep the record until that callback has returned. */
+  if (entry->qcache != NULL && entry->qcache->in_callback > 0 &&
+      entry->dnsrec != NULL &&
+      ares_llist_insert_last(entry->qcache->deferred, entry->dnsrec) != NULL) {
+    entry->dnsrec = NULL;
   }
 
   ares_free(entry->key);
@@ -227,6 +273,12 @@ ares_status_t ares_qcache_create(ares_rand_state *rand_state,
   cache->expire = ares_slist_create(rand_state, ares_qcache_entry_sort_cb,
                                     ares_qcache_entry_destroy_cb);
   if (cache->expire == NULL) {
+    status = ARES_ENOMEM; /* LCOV_EXCL_LINE: OutOfMemory */
+    goto done;            /* LCOV_EXCL_LINE: OutOfMemory */
+  }
+
+  cache->deferred = ares_llist_create(ares_qcache_dnsrec_destroy_cb);
+  if (cache->deferred == NULL) {
     status = ARES_ENOMEM; /* LCOV_EXCL_LINE: OutOfMemory */
     goto done;            /* LCOV_EXCL_LINE: OutOfMemory */
   }
@@ -351,6 +403,7 @@ static ares_status_t ares_qcache_insert_int(ares_qcache_t           *qcache,
     goto fail; /* LCOV_EXCL_LINE: OutOfMemory */
   }
 
+  entry->qcache    = qcache;
   entry->dnsrec    = qresp;
   entry->expire_ts = (time_t)now->sec + (time_t)ttl;
   entry->insert_ts = (time_t)now->sec;
